@@ -77,6 +77,34 @@ def digest(o):
     return h.hexdigest()
 
 
+BOUND_SKIP = {'rng', 'block'}     # Union.block is only consulted by split(), never after construction;
+                                  # it is not part of the checkpoint and not part of a bound's behaviour
+
+
+def _walk_bound(h, o, depth=0):
+    if hasattr(o, '__dict__') and type(o).__module__.startswith('nautilus'):
+        h.update(b'O' + type(o).__name__.encode())
+        d = vars(o)
+        for k in sorted(d):
+            if k in BOUND_SKIP:
+                continue
+            h.update(k.encode())
+            _walk_bound(h, d[k], depth + 1)
+    elif isinstance(o, list):
+        h.update(b'L%d' % len(o))
+        for x in o:
+            _walk_bound(h, x, depth + 1)
+    else:
+        _feed(h, _norm(o))
+
+
+def bound_digest(b):
+    """Behaviour-relevant content of a bound object (same result for a bound and its write/read copy)."""
+    h = _h()
+    _walk_bound(h, b)
+    return h.hexdigest()
+
+
 STORED_KEYS = ['points', 'log_l', 'blobs']
 STATS_KEYS = ['shell_n', 'shell_n_sample', 'shell_n_eff', 'shell_log_l', 'shell_log_v']
 SCALAR_KEYS = ['n_like', 'explored', '_discard_exploration', 'shell_log_l_min', 'shell_n_sample_exp',
@@ -138,7 +166,7 @@ def essential_parts(s, transfer=None):
             parts[k] = digest(None if v is None else np.asarray(v))
     parts['rng'] = digest(s.rng)
     for i, b in enumerate(s.bounds):
-        parts['bound_%d' % i] = digest(b)
+        parts['bound_%d' % i] = bound_digest(b)
     return parts
 
 
